@@ -1,5 +1,6 @@
 import Pycoin.Driver.Core
 import Pycoin.Spec.Consensus
+import Pycoin.Spec.Secp256k1
 /-!
 Driver ops of the consensus specification (`Pycoin.Spec.Consensus`), all prefixed `spec_`.
 
@@ -12,6 +13,9 @@ Driver ops of the consensus specification (`Pycoin.Spec.Consensus`), all prefixe
     spec_scriptnum minimal maxlen vch -> ok n | fail
     spec_numenc   n              -> ok vch
     spec_fad      script sig     -> ok script'             (FindAndDelete of `CScript() << sig`)
+    spec_checksig sig pubkey digest -> ok 0|1             (CheckSig with the signature hash given: libsecp256k1 key parsing, lax DER,
+                                                           ECDSA over secp256k1 — all in Lean, Spec/Secp256k1.lean; cross-checks the oracle)
+    spec_pubkey   key            -> ok x y | fail
 
 * `flags`: Core's `SCRIPT_VERIFY_*` bit mask, decimal.  `stack`/`witness`: items bottom first, comma separated (`~` = none).
 * `ctx`: `version:locktime:sequence[:…]` (further fields are for the harness: amount, transaction).
@@ -134,6 +138,13 @@ def handle : Handler := fun op args =>
     | .ok n => some s!"ok {n}"
     | .error _ => some "fail"
   | "spec_numenc", [n] => do some ("ok " ++ hx (scriptNumEncode (← parseInt? n)))
+  | "spec_checksig", [sig, pk, digest] => do
+    let d ← parseHex? digest
+    some ("ok " ++ showBool (Pycoin.Spec.Secp256k1.checkSigWith (fun _ => d) (← parseHex? sig) (← parseHex? pk)))
+  | "spec_pubkey", [key] => do
+    match Pycoin.Spec.Secp256k1.parsePubKey (← parseHex? key) with
+    | some (x, y) => some s!"ok {x} {y}"
+    | none => some "fail"
   | "spec_fad", [script, sig] => do
     some ("ok " ++ hx (findAndDelete (← parseHex? script) (pushData (← parseHex? sig))))
   | _, _ => none
